@@ -43,3 +43,24 @@ PROPERTIES["C12"] = dict(
              quick=dict(params=dict(NG=2, NX=2)), thorough=dict(params=dict(NG=3, NX=2)), args=dict(sample_every=5)),
     ],
 )
+
+INFER_FILES = ["inference/zz_verif_c05.go", "inference/zz_verif_c05l2.go", "inference/zz_verif_registry.go"]
+
+PROPERTIES["C05"] = dict(
+    explanation="symx executes the inference engine's own observe* functions (L1) and ObservePackage/buildPkgInferenceMap/buildFromSingleFullTrigger on real FullTrigger values (L2) "
+                "from SSA. Constraint kinds are concrete choices; the sites they mention are symbolic integers, so every map-key comparison inside the engine is a solver-decided fork "
+                "and one path stands for all site assignments with that equality pattern. The oracle (reachability closure / least fixpoint with controlled constraints) is one SMT term; "
+                "each assertion is a (check-sat pc ∧ ¬A) query.",
+    bounds=dict(quick="L1: <=3 constraints over 3 sites (5 kinds incl. annotations); L2: <=3 triggers/annotations over 2x2 sites (8 kinds incl. controlled triggers)",
+                thorough="L1: <=4 constraints over 4 sites and <=5 over 3; L2: <=4 triggers over 2x2 sites"),
+    outside=["constraint graphs beyond the bound (the property text's 'randomly beyond the bound' is a different technique and is not done)",
+             "how triggers are produced from programs (assertion tree)", "gob codec (see C06)"],
+    assumptions=COMMON_ASSUMPTIONS + ["L2 stubs primitivizer.site/fullTrigger: site identity = (key kind, object position, isDeep); validated against the real functions by native replay of sampled paths",
+                                      "precondition from duplicateFullTrigger: the consumer site of a controlled trigger is never a call-site parameter site"],
+    runs=[
+        dict(pkg="inference", files=INFER_FILES, entry="Harness_C05_L1",
+             quick=dict(params=dict(S=3, N=3)), thorough=dict(params=dict(S=4, N=4)), args=dict(sample_every=101)),
+        dict(pkg="inference", files=INFER_FILES, entry="Harness_C05_L2",
+             quick=dict(params=dict(S=2, N=3)), thorough=dict(params=dict(S=2, N=4)), args=dict(sample_every=997)),
+    ],
+)
